@@ -58,6 +58,8 @@ func init() {
 	for i := 0; i < 13; i++ {
 		keys = append(keys, keyT{[]string{"grp1", "grp2"}[i%2], "job" + strconv.Itoa(i)})
 	}
+	// two keys of the default group: the harness spells them in three ways (see jobKey)
+	keys = append(keys, keyT{quartz.DefaultGroup, "abc"}, keyT{quartz.DefaultGroup, "dj"})
 }
 
 const specialKeys = 7
@@ -97,6 +99,7 @@ type world struct {
 }
 
 func newWorld() *world {
+	spelling = 0
 	q := quartz.NewJobQueue()
 	s, err := quartz.NewStdScheduler(quartz.WithQueue(q, &sync.Mutex{}), quartz.WithLogger(logger.NoOpLogger{}))
 	if err != nil {
@@ -156,7 +159,22 @@ func keyIndex(k *quartz.JobKey) string {
 	return "?"
 }
 
-func jobKey(i int) *quartz.JobKey { return quartz.NewJobKeyWithGroup(keys[i].name, keys[i].group) }
+// spelling counts the keys built in the current world: a key of the default group is built, in turn, by
+// NewJobKey(name), NewJobKeyWithGroup(name, "") and NewJobKeyWithGroup(name, DefaultGroup) -- one and the same key
+var spelling int
+
+func jobKey(i int) *quartz.JobKey {
+	if keys[i].group == quartz.DefaultGroup {
+		spelling++
+		switch spelling % 3 {
+		case 0:
+			return quartz.NewJobKey(keys[i].name)
+		case 1:
+			return quartz.NewJobKeyWithGroup(keys[i].name, "")
+		}
+	}
+	return quartz.NewJobKeyWithGroup(keys[i].name, keys[i].group)
+}
 
 type mspec struct {
 	kind byte // 'N', 'G', 'T'
@@ -426,6 +444,13 @@ func cmdRandom(seed int64, nseq, maxlen int, path string) {
 			nk = 2 + r.Intn(specialKeys-1)
 		}
 		np := 1 + r.Intn(len(prios)) // priorities in use (small => many ties)
+		useDefault := r.Intn(3) == 0 // every third sequence also uses the two keys of the default group
+		pick := func() int {
+			if useDefault && r.Intn(3) == 0 {
+				return len(keys) - 2 + r.Intn(2)
+			}
+			return r.Intn(nk)
+		}
 		calls := make([]call, 0, n)
 		if r.Intn(4) == 0 {
 			// fill profile: start from a queue holding many keys, then keep it full, so that Remove and
@@ -458,7 +483,7 @@ func cmdRandom(seed int64, nseq, maxlen int, path string) {
 						continue
 					}
 				}
-				calls = append(calls, call{kind: 'P', via: via, key: r.Intn(nk), prio: prios[r.Intn(np)],
+				calls = append(calls, call{kind: 'P', via: via, key: pick(), prio: prios[r.Intn(np)],
 					susp: r.Intn(4) == 0, repl: r.Intn(100) < replW, id: nextID})
 				nextID++
 			default:
@@ -468,9 +493,9 @@ func cmdRandom(seed int64, nseq, maxlen int, path string) {
 				case y < 33:
 					calls = append(calls, call{kind: 'H'})
 				case y < 45:
-					calls = append(calls, call{kind: 'G', key: r.Intn(nk)})
+					calls = append(calls, call{kind: 'G', key: pick()})
 				case y < 70:
-					calls = append(calls, call{kind: 'R', key: r.Intn(nk)})
+					calls = append(calls, call{kind: 'R', key: pick()})
 				case y < 76:
 					calls = append(calls, call{kind: 'Z'})
 				case y < 78:
